@@ -437,6 +437,19 @@ def run(ctx, budget=1.0):
         n = rng.randrange(3, 9)
         tab = su.random_state(rng, n)
         check_state_to_graph(ctx, res, drv, tab if rng.random() < 0.5 else tab.to_stabilizer(), pending, "random")
+    # gauge independence (theorem C08.state_to_graph_depends_only_on_state): another generating set of the same state gets the same graph and gates
+    for _ in range(int((40 if ctx.quick else 400) * budget)):
+        n = rng.randrange(1, 8)
+        st = su.random_state(rng, n).to_stabilizer()
+        st2 = su.regauge_stab(st, rng)
+        res.evaluations += 1
+        o1, o2 = impl_state_to_graph(st), impl_state_to_graph(st2)
+        if o1[0] == "ok" and o2[0] == "ok" and o1 != o2:
+            res.exact_break("state_to_graph:gauge-independence", input={"stab": su.stab_args(st), "regauged": su.stab_args(st2)}, impl=[list(o1), list(o2)],
+                            model="same graph and gate list for both generating sets (C08.state_to_graph_depends_only_on_state)")
+        else:
+            res.traces_validated += 1
+        check_state_to_graph(ctx, res, drv, st2, pending, "random-regauged")
     # graph states in other gauges always convert (they are the states the solvers feed in)
     for _ in range(int((40 if ctx.quick else 400) * budget)):
         n = rng.randrange(2, 9)
